@@ -38,14 +38,16 @@ ALPHABET = [
     ("data:newvals", 1), ("data:longer", 1), ("data:shorter", 1), ("data:flip", 1), ("data:same", 1),
     ("data:list", 0), ("data:int", 0), ("data:f32", 0),
     ("NFFT:None", 1), ("NFFT:nextpow2", 0), ("NFFT:eqN", 0), ("NFFT:even_gt", 1), ("NFFT:odd_gt", 1),
-    ("NFFT:lt", 1), ("NFFT:invalid", 0), ("NFFT:same", 1), ("NFFT:parity", 0),
-    ("sampling:diff", 1), ("sampling:same", 0),
+    ("NFFT:lt", 1), ("NFFT:invalid", 0), ("NFFT:same", 1), ("NFFT:parity", 0), ("NFFT:double", 1), ("NFFT:half", 0),
+    ("sampling:diff", 1), ("sampling:same", 0), ("sampling:double", 1), ("sampling:half", 0),
     ("scale:toggle", 1), ("scale:same", 0), ("scale:invalid", 0),
     ("detrend:toggle", 1), ("detrend:same", 0), ("detrend:invalid", 0),
     ("window:diff", 1), ("window:same", 0), ("window:invalid", 0), ("window:alias", 0),
     ("lag:diff", 1), ("lag:same", 0), ("lag:out", 1),
     ("ar_order:diff", 1), ("ar_order:same", 0), ("ar_order:neg", 0), ("ar_order:big", 1), ("ar_order:none", 0),
     ("ma_order:diff", 1), ("ma_order:same", 0), ("ma_order:neg", 0), ("ma_order:none", 0),
+    ("npscalar:ar_order", 0), ("npscalar:ma_order", 0), ("npscalar:lag", 0), ("npscalar:sampling", 0),
+    ("npscalar:scale", 0), ("npscalar:NFFT", 0),
     ("inject:0:before", 1), ("inject:0:after", 0), ("inject:1:before", 1), ("inject:1:after", 0),
 ]
 ALPHA_NAMES = [a for a, _ in ALPHABET]
@@ -57,6 +59,9 @@ MODES = ("fault_free", "natural", "injected", "mixed")
 
 def applicable(aname, cls):
     head = aname.split(":")[0]
+    if head == "npscalar":
+        a = aname.split(":")[1]
+        return a in ("sampling", "scale", "NFFT") or a in sut.EXTRA_ATTRS[cls]
     if head in ("window", "lag", "ar_order", "ma_order"):
         return head in sut.EXTRA_ATTRS[cls]
     if head == "inject":
@@ -294,6 +299,8 @@ class Run(object):
             v = op["value"]
             if op["attr"] == "data":
                 v = dec_data(v)
+            elif isinstance(v, dict) and "np" in v:
+                v = getattr(np, v["np"])(v["v"])      # numpy scalar (np.int64(4), np.float64(2.0), np.bool_(True))
             setattr(p, op["attr"], v)
             return None
         if k == "reassign":
@@ -622,6 +629,21 @@ def concretize(aname, rng, run):
     if head == "inject":
         return {"op": "inject", "kernel": int(parts[1]), "when": parts[2]}
     vc = parts[1]
+    if head == "npscalar":
+        # the same kind of value an in-domain assignment would use, but as a numpy scalar
+        base = {"ar_order": "ar_order:diff", "ma_order": "ma_order:diff", "lag": "lag:diff", "sampling": "sampling:diff",
+                "scale": "scale:toggle", "NFFT": "NFFT:even_gt"}[vc]
+        op = concretize(base, rng, run)
+        if op is None or op["value"] is None:
+            return None
+        v = op["value"]
+        if isinstance(v, bool):
+            op["value"] = {"np": "bool_", "v": v}
+        elif isinstance(v, int):
+            op["value"] = {"np": "int64", "v": v}
+        else:
+            op["value"] = {"np": "float64", "v": float(v)}
+        return op
     if vc == "same":
         attr = {"scale": "scale_by_freq"}.get(head, head)
         return {"op": "reassign", "attr": attr}
@@ -673,6 +695,10 @@ def concretize(aname, rng, run):
             v = rng.randrange(1, max(2, N))
         elif vc == "parity":
             v = cur + 1
+        elif vc == "double":
+            v = 2 * cur                 # together with sampling:double this leaves df bit-identical
+        elif vc == "half":
+            v = max(1, cur // 2)
         elif vc == "invalid":
             v = rng.choice([0, -1, 2.5, "x", -16])
         else:
@@ -680,6 +706,10 @@ def concretize(aname, rng, run):
         return {"op": "set", "attr": "NFFT", "value": v}
     if head == "sampling":
         cur = p.sampling
+        if vc == "double":
+            return {"op": "set", "attr": "sampling", "value": cur * 2}
+        if vc == "half":
+            return {"op": "set", "attr": "sampling", "value": cur / 2.0}
         return {"op": "set", "attr": "sampling", "value": rng.choice([s for s in SAMPLINGS if s != cur])}
     if head == "scale":
         if vc == "invalid":
